@@ -117,8 +117,18 @@ def spec_qn_size(spec):
 
 
 def random_spec(rng, n, two_comp=False, allow=("e", "s", "s0", "v", "mv", "me")):
-    """structural generator of a basis list: at least one charged site"""
+    """structural generator of a basis list: at least one charged site.
+    One draw in five (when spins are allowed) is a chain of spins with SIGNED charges (+1/-1, S_z like): there the total
+    charge can vanish although every bond carries several populated blocks."""
     spec = []
+    if "s" in allow and "e" in allow and rng.random() < 0.2:
+        for i in range(n):
+            if two_comp:
+                a = [1, -1] if rng.random() < 0.5 else [1, 0]
+                spec.append(("s", a, [-x for x in a]) if rng.random() < 0.8 else ("s", [0, 1], [0, -1]))
+            else:
+                spec.append(("s", 1, -1) if rng.random() < 0.8 else ("s", -1, 1))
+        return spec
     for i in range(n):
         t = allow[int(rng.integers(len(allow)))]
         if two_comp and t in ("v", "mv"):
